@@ -50,6 +50,11 @@ def GraphIsomorphism(G1, G2, nontrivial=False, formula_class=CNF):
                 F.add_clause([-f(u1, v1), -f(u2,v2)])
                 F.add_clause([-f(u1, v2), -f(u2,v1)])
 
+    if nontrivial:
+        # forbid the identical mapping (on the vertices both graphs have)
+        common = min(G1.order(), G2.order())
+        F.add_clause([-f(u, u) for u in range(1, common + 1)])
+
     F._mapping = f
     return F
 
